@@ -78,7 +78,11 @@ def average(*args):
     #   averagea-function-f5f84098-d453-4f4c-bbba-3d2c66356091
 
 
-def averageif(rng, criteria, average_range=None):
+# an optional argument which was not given (None is an empty cell)
+_NOT_GIVEN = object()
+
+
+def averageif(rng, criteria, average_range=_NOT_GIVEN):
     # Excel reference: https://support.microsoft.com/en-us/office/
     #   averageif-function-faec8e2e-0dec-4308-af69-f5576d8ac642
 
@@ -89,7 +93,7 @@ def averageif(rng, criteria, average_range=None):
     #  using the upper leftmost cell in the average_range argument as the
     #  beginning cell, and then including cells that correspond in size and
     #  shape to the range argument.
-    if average_range is None:
+    if average_range is _NOT_GIVEN:
         average_range = rng
     return averageifs(average_range, rng, criteria)
 
